@@ -1,6 +1,7 @@
 import Sif.Proofs.C04
 import Sif.Proofs.C04Add
 import Sif.Proofs.C04Remove
+import Sif.Proofs.C04RemoveBps
 import Sif.Spec.C04
 import Sif.Model.Clp.Units
 /-
@@ -62,6 +63,15 @@ theorem backing_removeUnits {Pu nD eD lu w n e left : Nat} (hw : 0 < w) (hwP : w
     (h : calculateWithdrawalFromUnits Pu nD eD lu w = .ok (n, e, left)) :
     backingOK nD eD Pu (nD - n) (eD - e) (Pu - w) = true :=
   Sif.Clp.backing_removeUnits hw hwP hn he h
+
+/-- **Clause 4, removals by basis points (full for this message).**  `RemoveLiquidity` with
+    0 < w ≤ 10000 basis points burns `lu − left` units; the backing per unit of the pool that remains
+    does not drop by more than the rounding dust — every pool with units, every magnitude. -/
+theorem backing_removeBps {Pu nD eD lu w n e left : Nat} (hPu0 : 0 < Pu) (hw0 : 0 < w) (hw : w ≤ 10000)
+    (hlu : lu ≤ Pu) (hn : n ≤ nD) (he : e ≤ eD)
+    (h : calculateWithdrawal Pu nD eD lu w = .ok (n, e, left)) :
+    backingOK nD eD Pu (nD - n) (eD - e) (Pu - (lu - left)) = true :=
+  Sif.Clp.backing_removeBps hPu0 hw0 hw hlu hn he h
 
 /- non-vacuity: a removal whose quotients are rounded -/
 example : calculateWithdrawalFromUnits 3000000000000000007 1000000000000000001 2000000000000000003 3000000000000000007 1000000000000000000
